@@ -31,7 +31,11 @@ func newWorld(c *sim.Ctx, followers int, opt worldOpts) *world {
 		w.byAddr[k.m] = k
 	}
 
-	switch c.T.Pick("genesis-volume", 6, 2, opt.hugeWeight, opt.hugeWeight) {
+	switch c.T.Pick("genesis-volume", 6, 2, opt.hugeWeight, opt.hugeWeight, opt.hugeWeight) {
+	case 4:
+		// a volume whose coin hours (genesis hours equal the volume) lie where fee x 1024, the per-kilobyte
+		// priority of a transaction, reaches 2^64
+		w.genCoins = uint64(1)<<uint(55+c.T.Int("genesis-exp", 3)) + uint64(c.T.Int("genesis-slack", 5000))*1000000
 	case 0:
 		w.genCoins = 100e12
 	case 1:
@@ -214,7 +218,15 @@ func (w *world) mkSpend(m *model.Ledger, fat bool) (model.Txn, bool) {
 	// fee policy
 	burn := uint64(m.Cfg.Unconfirmed.BurnFactor)
 	var fee uint64
-	switch t.Pick("fee", 10, 2, 1, 1, 2, 2) {
+	switch t.Pick("fee", 10, 2, 1, 1, 2, 2, 1) {
+	case 6: // around the point where fee x 1024 (the per-kilobyte priority) reaches 2^64
+		b := []uint64{1 << 54, 1<<54 + 1, 1<<54 - 1, 18446744073709551615 / 1000, 18446744073709551615/1000 + 1, 1 << 55, 1<<54 + 1<<50, 1 << 53}[t.Int("fee-boundary", 8)]
+		req := (hours + burn - 1) / burn
+		if b >= req && b <= hours {
+			fee = b + t.Draw("fee-boundary-delta", 1000)
+		} else {
+			fee = req
+		}
 	case 0: // exactly the required fee for the unconfirmed parameters
 		fee = (hours + burn - 1) / burn
 	case 1: // zero fee
@@ -328,6 +340,60 @@ func (w *world) mkSpend(m *model.Ledger, fat bool) (model.Txn, bool) {
 	}
 	w.sign(m, &tx)
 	return tx, true
+}
+
+// mkSpendOf spends exactly the given unspent outputs into one output that carries all coins and `hours` hours.
+func (w *world) mkSpendOf(m *model.Ledger, ins []model.Hash, hours uint64) (model.Txn, bool) {
+	var tx model.Txn
+	var coins uint64
+	for _, id := range ins {
+		u, ok := m.Unspent[id]
+		if !ok {
+			return model.Txn{}, false
+		}
+		if coins+u.Coins < coins {
+			return model.Txn{}, false
+		}
+		coins += u.Coins
+		tx.In = append(tx.In, id)
+	}
+	if coins == 0 {
+		return model.Txn{}, false
+	}
+	tx.Out = []model.Out{{Addr: w.destination(w.c.T), Coins: coins, Hours: hours}}
+	w.sign(m, &tx)
+	return tx, true
+}
+
+// mkOverflowCombo: one owned output whose accrued hours at the head time exceed 2^64-1 and one ordinary owned
+// output, spent together.
+func (w *world) mkOverflowCombo(m *model.Ledger) (model.Txn, bool) {
+	t := w.c.T
+	headTime := m.Head().Head.Time
+	var ov, ord []model.Hash
+	ordHours := map[model.Hash]uint64{}
+	for _, id := range w.ownedUnspents(m) {
+		h, over, inter := model.AccruedHours(m.Unspent[id], headTime)
+		switch {
+		case inter:
+		case over:
+			ov = append(ov, id)
+		case h.IsUint64() && h.Uint64() >= 2 && h.Uint64() < 1<<62:
+			ord = append(ord, id)
+			ordHours[id] = h.Uint64()
+		}
+	}
+	if len(ov) == 0 || len(ord) == 0 {
+		return model.Txn{}, false
+	}
+	a, b := ord[t.Int("combo-ord", len(ord))], ov[t.Int("combo-ov", len(ov))]
+	h := ordHours[a]
+	hours := []uint64{h, h / 2, h + 1, 2 * h, h + h/2}[t.Pick("combo-hours", 2, 1, 2, 2, 1)]
+	ins := []model.Hash{a, b}
+	if t.Bool("combo-overflow-first") {
+		ins = []model.Hash{b, a}
+	}
+	return w.mkSpendOf(m, ins, hours)
 }
 
 // tieBurst builds up to max one-input-one-output transactions that all pay
